@@ -2,6 +2,7 @@ import Mathlib.Topology.MetricSpace.Lipschitz
 import Mathlib.Analysis.SpecialFunctions.Trigonometric.Basic
 import Mathlib.Data.List.Dedup
 import Mathlib.Tactic.Ring
+import Mathlib.Tactic.LinearCombination
 import Mathlib.Tactic.Linarith
 import Mathlib.Tactic.NormNum
 import Mathlib.Tactic.Positivity
@@ -10,10 +11,11 @@ import OrixProofs.Properties.C01
 import OrixProofs.Lemmas.SamplingBasic
 import OrixProofs.Lemmas.SamplingUV
 import OrixProofs.Lemmas.SamplingCube
+import OrixProofs.Lemmas.SO3Cover
 /-
 C19 — sampling grids lie in and cover their target region.
 
-Theorems here are the LOGICAL skeleton only: a sample built as `unique(filter inside grid)` lies in the region and has
+Section 1 is the LOGICAL skeleton of the fundamental-zone samples: a sample built as `unique(filter inside grid)` lies in the region and has
 no duplicates; local samples stay within the requested angle; the three-uniform-samples quaternion is unit; the reduced
 fundamental sample `from_euler(0, θ, π/2 − φ)` rotates the sample Z axis exactly onto the direction with polar angle θ
 and azimuth φ; and the covering lemma: an `L`-Lipschitz image of a grid of mesh `h` covers the image of the domain within
@@ -36,9 +38,16 @@ Sections 2–4 are about the MODEL of the deterministic S2 meshes (`OrixModel/Sa
     theorem (their face lattice is equiangular, spacing up to `2·r` near the face corners): measured only.
   * spherified-edge grid: defined for every r > 0, equiangular edge points with angular step ≤ r (`_partial`).
   * equal-area and hexagonal meshes: unit vectors only.  Icosahedral mesh: no model, no theorem (measured).
+
+Section 5 is about the MODEL of the deterministic SO(3) grids of the methods "quaternion" and "haar_euler"
+(`OrixModel/SO3Sampling.lean`, tied to `orix/sampling/SO3_sampling.py` by the sites `so3_num_steps`, `so3_grid`): defined for
+every `r > 0` with `n³` resp. `n²·n/2` unit quaternions, and THE COVERING THEOREMS of SO(3) for every `0 < r ≤ 180°`: every
+rotation has a grid rotation `q` with `|p·q| ≥ cos(rπ/360)·√(1 - r/(2(360-r)))` ("quaternion") resp.
+`cos(rπ/360)·√(1 - r/180)` ("haar_euler").  The cubochoric grid and the restriction of a grid to a fundamental zone are
+not covered by a theorem (measured).
 -/
 namespace Orix.C19
-open Orix Scalar Sampling SamplingLemmas LatLemmas
+open Orix Scalar Sampling SamplingLemmas LatLemmas SO3Sampling SO3Lemmas
 
 /-! ## 1. logical skeleton of the SO(3) samples, reduced sample, generic covering lemma -/
 
@@ -449,6 +458,221 @@ theorem spherified_edge_equiangular_partial (r : ℝ) (hr : 0 < r) :
     obtain ⟨h1, h2⟩ := mem_intRange.mp hi
     exact ⟨i, h1, h2, arctan_edge_point hr h1 h2.le⟩
 
+
+/-! ## 5. SO(3): the deterministic grids of the methods "quaternion" and "haar_euler" cover SO(3)
+
+`uniform_SO3_sample(r, method)` before `unique()` (model `OrixModel/SO3Sampling.lean`, tied to the code by the correspondence
+sites `so3_quat_grid` / `so3_euler_grid`).  For every unit quaternion `p` (every rotation) the grid holds a quaternion `q`
+with `|p·q|` at least the stated bound, i.e. the rotation angle `2 arccos |p·q|` between them is at most `2 arccos(bound)`.
+The radial Hopf coordinate is sampled uniformly in `u = sin²`, so the covering angle scales like `√r` near the poles
+`u = 0, 1` (`≈ 2 arccos √(1 - 1/(2(n-1)))`), not like `r`: the bound below is what holds for ALL rotations; the typical
+distance is of order `r`.  Fundamental-zone samples keep the grid rotations inside the zone only, and the cubochoric method
+is not modelled: for those the covering radius is measured. -/
+
+/-- `_resolution_to_num_steps` over ℝ -/
+theorem so3_num_steps (r : ℝ) (hr : r ≠ 0) (e o : Bool) :
+    numSteps r e o = .ok (if (e && ⌈360 / r⌉ % 2 == 1) || (o && ⌈360 / r⌉ % 2 == 0) then ⌈360 / r⌉ + 1 else ⌈360 / r⌉) := by
+  simp [numSteps, hr]
+
+/-- at least two steps for every resolution `0 < r ≤ 180` -/
+theorem so3_two_le_ceil (r : ℝ) (hr : 0 < r) (hr' : r ≤ 180) : 2 ≤ ⌈360 / r⌉ := by
+  have : (2 : ℝ) ≤ 360 / r := by rw [le_div_iff₀ hr]; linarith
+  have h2 : ((2 : ℤ) : ℝ) ≤ (⌈360 / r⌉ : ℝ) := by push_cast; exact le_trans this (Int.le_ceil _)
+  exact_mod_cast h2
+
+/-- NO ERROR, COUNT: for `r > 0` the "quaternion" grid is defined and has `⌈360/r⌉³` rotations -/
+theorem so3_quaternion_defined (r : ℝ) (hr : 0 < r) :
+    quatMethod r = .ok (quatGrid ⌈360 / r⌉.toNat) ∧ (quatGrid ⌈360 / r⌉.toNat : List (Quat ℝ)).length = ⌈360 / r⌉.toNat ^ 3 := by
+  have hpos : 0 < ⌈360 / r⌉ := Int.ceil_pos.mpr (by positivity)
+  constructor
+  · simp only [quatMethod, so3_num_steps r hr.ne']
+    simp [not_lt.mpr hpos.le]
+  · simp [quatGrid, quatU1, quatU23, List.length_flatMap, linspace_length, pow_succ]
+    ring
+
+/-- UNIT: every quaternion of the "quaternion" grid is a unit quaternion -/
+theorem so3_quaternion_unit (n : ℕ) (hn : 2 ≤ n) : ∀ q ∈ (quatGrid n : List (Quat ℝ)), Quat.normSq q = 1 := by
+  intro q hq
+  unfold quatGrid quatU1 quatU23 at hq
+  simp only [List.mem_flatMap, List.mem_map, mem_linspace] at hq
+  obtain ⟨u2, ⟨k2, hk2, rfl⟩, u1, ⟨i, hi, rfl⟩, u3, ⟨k3, hk3, rfl⟩, rfl⟩ := hq
+  rw [quatU1_at n hn i hi]
+  have hnr : (2 : ℝ) ≤ n := by exact_mod_cast hn
+  have hn1 : (0 : ℝ) < (n : ℝ) - 1 := by linarith
+  have h0 : 0 ≤ (i : ℝ) * (1 / ((n : ℝ) - 1)) := by positivity
+  have h1 : (i : ℝ) * (1 / ((n : ℝ) - 1)) ≤ 1 := by
+    rw [mul_one_div, div_le_one hn1]
+    have : (i : ℝ) + 1 ≤ n := by exact_mod_cast hi
+    linarith
+  generalize linspaceAt (lit 0 : ℝ) (lit 1) n false k2 = t2
+  generalize linspaceAt (lit 0 : ℝ) (lit 1) n false k3 = t3
+  have := three_uniform_unit _ (2 * Real.pi * t2) (2 * Real.pi * t3) h0 h1
+  simp only [quatPoint, Quat.normSq, lit_real, sqrt_real, sin_real, cos_real, pi_real, Nat.cast_one, Nat.cast_ofNat]
+  linear_combination this
+
+/-- COVERING OF SO(3), method "quaternion", in the number of steps: for `0 < r ≤ 180°` every rotation `p` has a grid
+rotation `q` with `p·q ≥ cos(π/n) √(1 - 1/(2(n-1)))`, `n = ⌈360/r⌉` -/
+theorem so3_quaternion_covers (r : ℝ) (hr : 0 < r) (hr' : r ≤ 180) (qs : List (Quat ℝ)) (hok : quatMethod r = .ok qs)
+    (p : Quat ℝ) (hp : Quat.normSq p = 1) :
+    ∃ q ∈ qs, Real.cos (Real.pi / (⌈360 / r⌉ : ℝ)) * Real.sqrt (1 - 1 / (2 * ((⌈360 / r⌉ : ℝ) - 1))) ≤ Quat.dot p q := by
+  rw [(so3_quaternion_defined r hr).1] at hok
+  cases hok
+  have h2 := so3_two_le_ceil r hr hr'
+  have hcast : ((⌈360 / r⌉.toNat : ℕ) : ℝ) = (⌈360 / r⌉ : ℝ) := by
+    have : ((⌈360 / r⌉.toNat : ℕ) : ℤ) = ⌈360 / r⌉ := Int.toNat_of_nonneg (by omega)
+    exact_mod_cast this
+  have := quat_grid_cover ⌈360 / r⌉.toNat (by omega) p hp
+  rw [hcast] at this
+  exact this
+
+/-- … and in the resolution alone: `p·q ≥ cos(r·π/360) √(1 - r/(2(360 - r)))` (half the resolution in each of the two
+angular coordinates, half a step of the radial coordinate) -/
+theorem so3_quaternion_covers_resolution (r : ℝ) (hr : 0 < r) (hr' : r ≤ 180) (qs : List (Quat ℝ))
+    (hok : quatMethod r = .ok qs) (p : Quat ℝ) (hp : Quat.normSq p = 1) :
+    ∃ q ∈ qs, Real.cos (r * Real.pi / 360) * Real.sqrt (1 - r / (2 * (360 - r))) ≤ Quat.dot p q := by
+  obtain ⟨q, hq, hb⟩ := so3_quaternion_covers r hr hr' qs hok p hp
+  refine ⟨q, hq, le_trans ?_ hb⟩
+  have h2 := so3_two_le_ceil r hr hr'
+  have hn : (360 : ℝ) / r ≤ (⌈360 / r⌉ : ℝ) := Int.le_ceil _
+  have hn2 : (2 : ℝ) ≤ (⌈360 / r⌉ : ℝ) := by exact_mod_cast h2
+  have hq0 : (0 : ℝ) < 360 / r := by positivity
+  -- π/n ≤ rπ/360
+  have hang : Real.pi / (⌈360 / r⌉ : ℝ) ≤ r * Real.pi / 360 := by
+    rw [div_le_iff₀ (by linarith)]
+    have : r * Real.pi / 360 * (360 / r) = Real.pi := by field_simp
+    calc Real.pi = r * Real.pi / 360 * (360 / r) := this.symm
+      _ ≤ r * Real.pi / 360 * (⌈360 / r⌉ : ℝ) := by
+        apply mul_le_mul_of_nonneg_left hn; positivity
+  have hcos : Real.cos (r * Real.pi / 360) ≤ Real.cos (Real.pi / (⌈360 / r⌉ : ℝ)) := by
+    apply Real.cos_le_cos_of_nonneg_of_le_pi (by positivity) _ hang
+    have : r * Real.pi / 360 ≤ 180 * Real.pi / 360 := by
+      apply div_le_div_of_nonneg_right _ (by norm_num)
+      exact mul_le_mul_of_nonneg_right hr' Real.pi_pos.le
+    linarith [Real.pi_pos]
+  have hcos0 : 0 ≤ Real.cos (r * Real.pi / 360) := by
+    apply Real.cos_nonneg_of_neg_pi_div_two_le_of_le
+    · have : 0 ≤ r * Real.pi / 360 := by positivity
+      linarith [Real.pi_pos]
+    · have : r * Real.pi / 360 ≤ 180 * Real.pi / 360 := by
+        apply div_le_div_of_nonneg_right _ (by norm_num)
+        exact mul_le_mul_of_nonneg_right hr' Real.pi_pos.le
+      linarith [Real.pi_pos]
+  have hsq : Real.sqrt (1 - r / (2 * (360 - r))) ≤ Real.sqrt (1 - 1 / (2 * ((⌈360 / r⌉ : ℝ) - 1))) := by
+    apply Real.sqrt_le_sqrt
+    have h360 : (0 : ℝ) < 360 - r := by linarith
+    have hn1 : (0 : ℝ) < (⌈360 / r⌉ : ℝ) - 1 := by linarith
+    have : 1 / (2 * ((⌈360 / r⌉ : ℝ) - 1)) ≤ r / (2 * (360 - r)) := by
+      rw [div_le_div_iff₀ (by positivity) (by positivity)]
+      have : 360 ≤ r * (⌈360 / r⌉ : ℝ) := by
+        have := (div_le_iff₀ hr).mp hn; linarith
+      nlinarith
+    linarith
+  exact mul_le_mul hcos hsq (Real.sqrt_nonneg _) (le_trans hcos0 hcos)
+
+/-- the same as a rotation angle: the misorientation angle `2 arccos |p·q|` to the nearest grid rotation is at most
+`2 arccos (cos(r·π/360) √(1 - r/(2(360 - r))))` -/
+theorem so3_quaternion_covering_angle (r : ℝ) (hr : 0 < r) (hr' : r ≤ 180) (qs : List (Quat ℝ))
+    (hok : quatMethod r = .ok qs) (p : Quat ℝ) (hp : Quat.normSq p = 1) :
+    ∃ q ∈ qs, 2 * Real.arccos |Quat.dot p q| ≤ 2 * Real.arccos (Real.cos (r * Real.pi / 360) * Real.sqrt (1 - r / (2 * (360 - r)))) := by
+  obtain ⟨q, hq, hb⟩ := so3_quaternion_covers_resolution r hr hr' qs hok p hp
+  exact ⟨q, hq, by linarith [Real.arccos_le_arccos (le_trans hb (le_abs_self _))]⟩
+
+/-- NO ERROR, COUNT: for `r > 0` the "haar_euler" grid is defined, with an even number `n` of steps in `α`, `γ` and `n/2`
+steps in `cos β`: `n²·(n/2)` rotations -/
+theorem so3_euler_defined (r : ℝ) (hr : 0 < r) :
+    ∃ n : ℕ, Even n ∧ ((n : ℤ) = ⌈360 / r⌉ ∨ (n : ℤ) = ⌈360 / r⌉ + 1) ∧ eulerMethod r = .ok (eulerGrid n (n / 2))
+      ∧ (eulerGrid n (n / 2) : List (Quat ℝ)).length = n * n * (n / 2) := by
+  have hpos : 0 < ⌈360 / r⌉ := Int.ceil_pos.mpr (by positivity)
+  have hlen : ∀ n : ℕ, (eulerGrid n (n / 2) : List (Quat ℝ)).length = n * n * (n / 2) := by
+    intro n
+    simp [eulerGrid, eulerTriplets, eulerAlpha, eulerBeta, List.length_flatMap, linspace_length]
+    ring
+  rcases Int.emod_two_eq_zero_or_one ⌈360 / r⌉ with h0 | h1
+  · refine ⟨⌈360 / r⌉.toNat, ?_, Or.inl (Int.toNat_of_nonneg hpos.le), ?_, hlen _⟩
+    · have : Even ⌈360 / r⌉ := Int.even_iff.mpr h0
+      rcases this with ⟨k, hk⟩
+      exact ⟨k.toNat, by omega⟩
+    · simp only [eulerMethod, so3_num_steps r hr.ne', h0]
+      simp [not_lt.mpr hpos.le]
+  · refine ⟨(⌈360 / r⌉ + 1).toNat, ?_, Or.inr (Int.toNat_of_nonneg (by omega)), ?_, hlen _⟩
+    · have : Odd ⌈360 / r⌉ := Int.odd_iff.mpr h1
+      rcases this with ⟨k, hk⟩
+      exact ⟨(k + 1).toNat, by omega⟩
+    · simp only [eulerMethod, so3_num_steps r hr.ne', h1]
+      have : ¬ (⌈360 / r⌉ + 1 < 0) := by omega
+      simp [this]
+
+/-- COVERING OF SO(3), method "haar_euler": for `0 < r ≤ 180°` every rotation `p` has a grid rotation `q` with
+`|p·q| ≥ cos(r·π/360) √(1 - r/180)` -/
+theorem so3_euler_covers_resolution (r : ℝ) (hr : 0 < r) (hr' : r ≤ 180) (qs : List (Quat ℝ))
+    (hok : eulerMethod r = .ok qs) (p : Quat ℝ) (hp : Quat.normSq p = 1) :
+    ∃ q ∈ qs, Real.cos (r * Real.pi / 360) * Real.sqrt (1 - r / 180) ≤ |Quat.dot p q| := by
+  obtain ⟨n, hev, hn, hdef, -⟩ := so3_euler_defined r hr
+  rw [hdef] at hok
+  cases hok
+  have h2 := so3_two_le_ceil r hr hr'
+  have hn2 : 2 ≤ n := by rcases hn with h | h <;> omega
+  obtain ⟨k, hk⟩ := hev
+  have hh : n / 2 = k := by omega
+  have hk1 : 1 ≤ k := by omega
+  obtain ⟨q, hq, hb⟩ := euler_grid_cover n (n / 2) hn2 (by omega) p hp
+  refine ⟨q, hq, le_trans ?_ hb⟩
+  have hceil : (360 : ℝ) / r ≤ (⌈360 / r⌉ : ℝ) := Int.le_ceil _
+  have hnr : (360 : ℝ) / r ≤ (n : ℝ) := by
+    rcases hn with h | h
+    · have : (n : ℝ) = (⌈360 / r⌉ : ℝ) := by exact_mod_cast h
+      linarith
+    · have : (n : ℝ) = (⌈360 / r⌉ : ℝ) + 1 := by exact_mod_cast h
+      linarith
+  have hnpos : (0 : ℝ) < n := by
+    have : (2 : ℝ) ≤ n := by exact_mod_cast hn2
+    linarith
+  have hang : Real.pi / (n : ℝ) ≤ r * Real.pi / 360 := by
+    rw [div_le_iff₀ hnpos]
+    have : r * Real.pi / 360 * (360 / r) = Real.pi := by field_simp
+    calc Real.pi = r * Real.pi / 360 * (360 / r) := this.symm
+      _ ≤ r * Real.pi / 360 * (n : ℝ) := by
+        apply mul_le_mul_of_nonneg_left hnr; positivity
+  have hle : r * Real.pi / 360 ≤ Real.pi / 2 := by
+    have : r * Real.pi / 360 ≤ 180 * Real.pi / 360 := by
+      apply div_le_div_of_nonneg_right _ (by norm_num)
+      exact mul_le_mul_of_nonneg_right hr' Real.pi_pos.le
+    linarith [Real.pi_pos]
+  have hcos : Real.cos (r * Real.pi / 360) ≤ Real.cos (Real.pi / (n : ℝ)) :=
+    Real.cos_le_cos_of_nonneg_of_le_pi (by positivity) (by linarith [Real.pi_pos]) hang
+  have hcos0 : 0 ≤ Real.cos (r * Real.pi / 360) :=
+    Real.cos_nonneg_of_neg_pi_div_two_le_of_le (by have : 0 ≤ r * Real.pi / 360 := by positivity
+                                                   linarith [Real.pi_pos]) hle
+  have hsq : Real.sqrt (1 - r / 180) ≤ Real.sqrt (1 - 1 / ((n / 2 : ℕ) : ℝ)) := by
+    apply Real.sqrt_le_sqrt
+    rw [hh]
+    have hkr : (n : ℝ) = 2 * (k : ℝ) := by
+      have : n = 2 * k := by omega
+      exact_mod_cast this
+    have hkpos : (0 : ℝ) < k := by exact_mod_cast hk1
+    have : 1 / (k : ℝ) ≤ r / 180 := by
+      rw [div_le_div_iff₀ hkpos (by norm_num)]
+      have : 360 ≤ r * (n : ℝ) := by
+        have := (div_le_iff₀ hr).mp hnr; linarith
+      rw [hkr] at this
+      linarith
+    linarith
+  exact mul_le_mul hcos hsq (Real.sqrt_nonneg _) (le_trans hcos0 hcos)
+
+/-- as a rotation angle -/
+theorem so3_euler_covering_angle (r : ℝ) (hr : 0 < r) (hr' : r ≤ 180) (qs : List (Quat ℝ))
+    (hok : eulerMethod r = .ok qs) (p : Quat ℝ) (hp : Quat.normSq p = 1) :
+    ∃ q ∈ qs, 2 * Real.arccos |Quat.dot p q| ≤ 2 * Real.arccos (Real.cos (r * Real.pi / 360) * Real.sqrt (1 - r / 180)) := by
+  obtain ⟨q, hq, hb⟩ := so3_euler_covers_resolution r hr hr' qs hok p hp
+  exact ⟨q, hq, by linarith [Real.arccos_le_arccos hb]⟩
+
+/-- UNIT: every quaternion of the "haar_euler" grid is a unit quaternion with non-negative scalar part -/
+theorem so3_euler_unit (n h : ℕ) : ∀ q ∈ (eulerGrid n h : List (Quat ℝ)), Quat.normSq q = 1 ∧ 0 ≤ q.a := by
+  intro q hq
+  unfold eulerGrid at hq
+  obtain ⟨e, -, rfl⟩ := List.mem_map.mp hq
+  exact ⟨eu2qu_unit e, eu2qu_scalar_nonneg e⟩
+
 /-! non-vacuity -/
 example : (([3, 1, 3, 2, 5] : List Nat).filter (fun n => decide (n < 4))).dedup = [1, 3, 2] := by decide
 
@@ -471,5 +695,13 @@ example : ∃ m, cubeMesh (45 : ℝ) .normalized = .ok m ∧ m.steps = 1 ∧ m.v
     rw [show (45 : ℝ) * (Real.pi / 180) = Real.pi / 4 by ring, Real.tan_pi_div_four]
   have h1 : m.steps = 1 := by rw [hs, ht]; norm_num
   exact ⟨m, hm, h1, (cube_mesh_count_pos 45 .normalized m hm 1 (by rw [h1]; rfl)).trans (by norm_num)⟩
+/-- the SO(3) covering hypotheses hold at `r = 10°`: 36 steps, 36³ rotations, and some grid rotation within the bound of the
+identity -/
+example : ∃ qs, quatMethod (10 : ℝ) = .ok qs ∧ qs.length = 36 ^ 3 ∧
+    ∃ q ∈ qs, Real.cos (10 * Real.pi / 360) * Real.sqrt (1 - 10 / (2 * (360 - 10))) ≤ Quat.dot ⟨1, 0, 0, 0⟩ q := by
+  have e : (360 : ℝ) / 10 = ((36 : ℤ) : ℝ) := by norm_num
+  obtain ⟨h1, h2⟩ := so3_quaternion_defined 10 (by norm_num)
+  rw [e, Int.ceil_intCast] at h1 h2
+  exact ⟨_, h1, h2, so3_quaternion_covers_resolution 10 (by norm_num) (by norm_num) _ h1 ⟨1, 0, 0, 0⟩ (by simp [Quat.normSq])⟩
 
 end Orix.C19
